@@ -1,4 +1,5 @@
 """C36 Each rank has its own copy of global variables."""
+import json
 import os
 
 from hypothesis import strategies as st
@@ -73,7 +74,7 @@ def cases(draw, maxsteps):
     return {"np": draw(st.sampled_from([2, 2, 3, 4, 4, 5, 6, 8])),
             "priv": draw(st.sampled_from(["mmap", "mmap", "mmap", "dlopen"])),
             "size": draw(st.sampled_from(["s", "m", "l", "xl"])),
-            "aslr": draw(st.booleans()),
+            "launch": draw(st.sampled_from(["fresh", "fresh", "fresh-noaslr", "server", "server", "server-noaslr"])),
             "simcomp": draw(st.booleans()),
             "steps": draw(st.lists(step, min_size=1, max_size=maxsteps))}
 
@@ -87,8 +88,8 @@ class C36(core.Prop):
     technique = ("property-based testing (Hypothesis): generated scripts for multi-object MPI programs run through the real smpi_main() path "
                  "with privatization; per-rank model of every global and of every touched array element")
     rule = ("A case = 2..8 ranks, smpi/privatization in {mmap, dlopen}, one of four builds of drivers/c36_prog (three translation units; "
-            ".bss of ~7 kB, ~21 kB, ~37 kB or 1.2 MB, i.e. spilling more or less far past the file-backed pages of the data segment), ASLR on "
-            "or off (the fork server is started under `setarch -R`), smpi/simulate-computation on/off and a script of <= 40 steps executed "
+            ".bss of ~7 kB, ~21 kB, ~37 kB or 1.2 MB, i.e. spilling more or less far past the file-backed pages of the data segment), a launch mode (fresh process as smpirun does, or forked child of the fork "
+            "server, each with ASLR on or off through `setarch -R`: it decides where the loader maps the program), smpi/simulate-computation on/off and a script of <= 40 steps executed "
             "by every rank.  Observed: 24 scalars (initialised and zero-initialised, file statics, function-local statics, class statics, "
             "anonymous-namespace variables, a global object with a constructor, a pointer to another global, doubles, chars, shorts) and "
             "ANY element of 6 arrays (.data int arrays of 4 kB and 6..280 kB, .bss int arrays, a static .bss array of the second object, a "
@@ -108,11 +109,13 @@ class C36(core.Prop):
         return cases(40 if tier == "quick" else 80)
 
     def fixed_cases(self, tier):
+        if os.environ.get("VF_C36_NOFIXED"):       # sensitivity measurements of the generated part alone
+            return []
         res = []
         for priv in ("mmap", "dlopen"):
             for size in ("s", "m", "l", "xl"):
-                for aslr in (True, False):
-                    if priv == "dlopen" and not aslr:
+                for launch in ("fresh", "fresh-noaslr", "server"):
+                    if priv == "dlopen" and launch != "fresh":
                         continue
                     steps = []
                     for v in range(len(VARS)):
@@ -121,7 +124,7 @@ class C36(core.Prop):
                         for p_ in (1, 5, 2, 6, 14, 0, 400):        # last, last-1, page boundaries, first, somewhere
                             steps.append(["a", arr, p_, 255, 300 + arr])
                     steps += [["B"], ["C"], ["G"], ["X"], ["O", 1], ["P"], ["C"]]
-                    res.append({"np": 4, "priv": priv, "size": size, "aslr": aslr, "simcomp": False, "steps": steps})
+                    res.append({"np": 4, "priv": priv, "size": size, "launch": launch, "simcomp": False, "steps": steps})
         return res
 
     def check(self, case):
@@ -150,12 +153,18 @@ class C36(core.Prop):
         tmpdir = os.environ.get("VF_TMP") or core.tmpdir()
         req = {"prog": build.drv(prog), "platform": "/verif/drivers/c36_platform.xml", "np": np_, "priv": case["priv"],
                "script": script, "tmpdir": tmpdir, "cfg": ["smpi/simulate-computation:%s" % ("yes" if case.get("simcomp") else "no")]}
-        if case.get("aslr", True):
-            r = core.serve("c36_driver", req, cpu=60, wall=600)
+        # how the simulation process is created matters for WHERE the loader puts the program (mmap privatization has to find its
+        # data segment in the memory map): a forked child of the fork server, or a fresh process (what smpirun does), ASLR on or off
+        launch = case.get("launch", "server")
+        noaslr = ["setarch", os.uname().machine, "-R"] if launch.endswith("noaslr") else []
+        text = json.dumps(req, separators=(",", ":"))
+        if launch.startswith("fresh"):
+            r = core.run(noaslr + [build.drv("c36_driver"), "-"], stdin=text, cpu=60, wall=600, env=build.runtime_env())
+        elif noaslr:
+            srv = core.server("c36_driver:noaslr", cmd=noaslr + [build.drv("c36_driver")], env=build.runtime_env())
+            r = srv.request(text, cpu=60, wall=600)
         else:
-            # same driver, address-space randomisation off: the loader places the program at the same addresses in every run
-            srv = core.server("c36_driver:noaslr", cmd=["setarch", os.uname().machine, "-R", build.drv("c36_driver")], env=build.runtime_env())
-            r = srv.request(__import__("json").dumps(req, separators=(",", ":")), cpu=60, wall=600)
+            r = core.serve("c36_driver", req, cpu=60, wall=600)
         if r.wall_exceeded:
             raise core.Inconclusive()
         # ---- model: scalars + array elements (some scalars ARE array elements)
@@ -170,7 +179,7 @@ class C36(core.Prop):
         switched = {}
         nontrivial = False
         labels = {case["priv"], "size:" + size, "np=%d" % np_, "simcomp" if case.get("simcomp") else "no-simcomp",
-                  "aslr-on" if case.get("aslr", True) else "aslr-off"}
+                  "launch:" + case.get("launch", "server")}
         if size != "s":
             labels.add("bss-large")
         for i, s_ in enumerate(steps):
@@ -246,7 +255,8 @@ class C36(core.Prop):
                     end = line
             except ValueError:
                 pass
-        where = "privatization %s, %d ranks, program %s (%s), ASLR %s" % (case["priv"], np_, prog, size, "on" if case.get("aslr", True) else "off")
+        where = "privatization %s, %d ranks, program %s (%s), ASLR %s" % (case["priv"], np_, prog, size, "off" if case.get("launch", "").endswith("noaslr") else "on") + ", " + (
+            "fresh process" if case.get("launch", "").startswith("fresh") else "fork-server child")
         if r.rc != 0 or end is None or len(done) != np_:
             if r.rc == 64:
                 raise RuntimeError("c36_driver rejected the case: " + r.err[-800:])
